@@ -398,6 +398,9 @@ func (s *fsmSnapshot) Release() {}
 
 func (f *RecFSM) Restore(rc io.ReadCloser) error {
 	defer rc.Close()
+	if d := f.delay(); d > 0 {
+		time.Sleep(d) // a slow state machine is slow to restore as well
+	}
 	b, err := io.ReadAll(rc)
 	if err != nil {
 		return err
